@@ -197,7 +197,8 @@ fn run_history(info: &Value, hist: &[Value]) -> Result<Run, String> {
 fn replay(cases: &str, outp: &str) {
     let mut out = Out::create(outp);
     let (mut n, mut bad) = (0u64, 0u64);
-    for (ci, c) in read_ndjson(cases).iter().enumerate() {
+    for (ci, c) in vh::stream_ndjson(cases).enumerate() {
+        let c = &c;
         n += 1;
         eprintln!("@{ci}");
         let hist = c["hist"].as_array().unwrap();
